@@ -3,6 +3,7 @@ Line-protocol driver: replays the operation lines written by the Go harness thro
 reports, per line, `ok` or the first disagreement.  Core-only (links as a `lean_exe`).
 -/
 import Mmmbbb.Model.Step
+import Mmmbbb.Model.Tx
 import Mmmbbb.Model.Pure
 import Mmmbbb.Model.Api
 open Mmmbbb Mmmbbb.Codec
@@ -264,6 +265,16 @@ def handle (ds : DState) (line : String) : DState × String :=
       match rest with
       | [theirs] => if mine == theirs then (ds, "ok") else (ds, s!"MISMATCH kind=dump model={mine}")
       | _ => (ds, "ERROR malformed dump line")
+    else if op == "fault" then
+      -- an injected storage failure: nothing happened (a pull whose subscription check had committed
+      -- refreshed the expiry); the clock is set to the implementation's
+      match (fget fs "t").bind String.toInt?, (fget fs "ta").bind String.toInt? with
+      | some t, some ta =>
+        if t != ds.st.now then (ds, s!"MISMATCH kind=time model={ds.st.now} impl={t}")
+        else
+          let st' := faultEffect ds.st ((fget fs "refreshed").bind dec)
+          ({ ds with st := { st' with now := ta }, pending := [] }, "ok")
+      | _, _ => (ds, "ERROR malformed fault line")
     else if op == "msg" then
       match parsePubMsg fs with
       | .ok m => ({ ds with pending := ds.pending ++ [m] }, "ok")
